@@ -376,6 +376,18 @@ async fn acquire_authority_lock_with_recovery(
     }
 }
 
+#[cfg(all(rip_verif, not(test)))]
+pub(crate) async fn verif_acquire_authority_lock_with_recovery(
+    data_dir: &std::path::Path,
+    workspace_root: &std::path::Path,
+) -> Result<AuthorityLockGuard, String> {
+    let client = Client::builder()
+        .timeout(std::time::Duration::from_millis(250))
+        .build()
+        .expect("reqwest client");
+    acquire_authority_lock_with_recovery(&client, data_dir, workspace_root).await
+}
+
 #[cfg(not(test))]
 #[allow(dead_code)]
 pub(crate) fn build_app(data_dir: std::path::PathBuf) -> Router {
@@ -544,7 +556,15 @@ async fn stream_events(
     };
 
     let receiver = handle.subscribe();
+    #[cfg(rip_verif)]
+    rip_kernel::verif::point("sse.subscribed", || {
+        serde_json::json!({"stream": session_id, "sk": "session"})
+    });
     let past = handle.events_snapshot().await;
+    #[cfg(rip_verif)]
+    rip_kernel::verif::point("sse.snapshotted", || {
+        serde_json::json!({"stream": session_id, "sk": "session", "n": past.len()})
+    });
 
     let last_seq = past.last().map(|event| event.seq);
     let past_stream = tokio_stream::iter(past).filter_map(|event| async move {
@@ -1262,6 +1282,10 @@ async fn thread_stream_events(
 ) -> impl IntoResponse {
     let store = state.engine.continuities();
     let receiver = store.subscribe();
+    #[cfg(rip_verif)]
+    rip_kernel::verif::point("sse.subscribed", || {
+        serde_json::json!({"stream": thread_id, "sk": "continuity"})
+    });
 
     let past = match store.replay_events(&thread_id) {
         Ok(events) => events,
@@ -1270,6 +1294,10 @@ async fn thread_stream_events(
         }
         Err(_) => return StatusCode::INTERNAL_SERVER_ERROR.into_response(),
     };
+    #[cfg(rip_verif)]
+    rip_kernel::verif::point("sse.snapshotted", || {
+        serde_json::json!({"stream": thread_id, "sk": "continuity", "n": past.len()})
+    });
     // If there are no frames in the stream, treat the thread id as unknown.
     // (The truth of thread existence is its continuity event stream.)
     if past.is_empty() {
@@ -1451,7 +1479,15 @@ async fn stream_task_events(
     };
 
     let receiver = handle.subscribe();
+    #[cfg(rip_verif)]
+    rip_kernel::verif::point("sse.subscribed", || {
+        serde_json::json!({"stream": task_id, "sk": "task"})
+    });
     let past = handle.events_snapshot().await;
+    #[cfg(rip_verif)]
+    rip_kernel::verif::point("sse.snapshotted", || {
+        serde_json::json!({"stream": task_id, "sk": "task", "n": past.len()})
+    });
 
     let last_seq = past.last().map(|event| event.seq);
     let past_stream = tokio_stream::iter(past).filter_map(|event| async move {
